@@ -140,3 +140,12 @@ package netutil
 //@     invariant forall j int, k int {f.ipList[j][k]} :: i <= j && j < 256 && 0 <= k && k < 2 ==> f.ipList[j][k] == old(f.ipList[j][k])
 //@     invariant forall j int {f.ipList[j][1]} {old(f.ipList[j][1])} :: 0 <= j && j < i ==> ite(old(f.ipList[j][1]) == ones && old(f.ipList[j][0]) == netOf(cidr), f.ipList[j][0] == 0 && f.ipList[j][1] == 0, f.ipList[j][0] == old(f.ipList[j][0]) && f.ipList[j][1] == old(f.ipList[j][1]))
 //@     decreases f.index - i
+
+// ---- SplitHostPort (used by Logger.Relay, C15): total on arbitrary strings ----
+//@ func SplitHostPort
+//@   modifies nothing
+//@   ensures nocolon: port == "" && host == addr || exists k int {addr[k]} :: 0 <= k && k < len(addr) && addr[k] == ':'
+//@   loop 1
+//@     invariant -1 <= i && i < len(addr)
+//@     invariant forall k int {addr[k]} :: i < k && k < len(addr) ==> addr[k] != ':'
+//@     decreases i + 1
